@@ -134,7 +134,7 @@ GEN = Contract(
         ),
     },
     theory="string",
-    timeout=60,
+    timeout=240,
 )
 
 PP_CALL = Contract(
@@ -333,5 +333,5 @@ def copy_contract():
                                "target_file.buf == out"]),
         },
         theory="string",
-        timeout=60,
+        timeout=240,
     )
